@@ -1,4 +1,124 @@
 /- Proofs/Dom.lean — helper lemmas for Props/C19.lean -/
 import PM.Dom
 namespace PM.Dom
+
+theorem escape_nil : escape [] = [] := rfl
+
+theorem escape_cons (c : Char) (s : List Char) : escape (c :: s) = escapeChar c ++ escape s := by
+  simp [escape]
+
+/-- the five-way case split on a character, with the generic case carrying the disequalities -/
+theorem escapeChar_cases (c : Char) :
+    (c = '&' ∧ escapeChar c = "&amp;".toList) ∨ (c = '<' ∧ escapeChar c = "&lt;".toList) ∨
+    (c = '>' ∧ escapeChar c = "&gt;".toList) ∨ (c = '"' ∧ escapeChar c = "&quot;".toList) ∨
+    (c = '\'' ∧ escapeChar c = "&#x27;".toList) ∨
+    (c ≠ '&' ∧ c ≠ '<' ∧ c ≠ '>' ∧ c ≠ '"' ∧ c ≠ '\'' ∧ escapeChar c = [c]) := by
+  unfold escapeChar
+  split <;> simp_all
+
+theorem unescape_cons_ne (c : Char) (r : List Char) (h : c ≠ '&') :
+    unescape (c :: r) = c :: unescape r := by
+  rw [unescape.eq_def]
+  split <;> simp_all
+
+theorem unescape_amp (r : List Char) : unescape ("&amp;".toList ++ r) = '&' :: unescape r := by
+  show unescape ('&' :: 'a' :: 'm' :: 'p' :: ';' :: r) = _
+  rw [unescape]
+theorem unescape_lt (r : List Char) : unescape ("&lt;".toList ++ r) = '<' :: unescape r := by
+  show unescape ('&' :: 'l' :: 't' :: ';' :: r) = _
+  rw [unescape]
+theorem unescape_gt (r : List Char) : unescape ("&gt;".toList ++ r) = '>' :: unescape r := by
+  show unescape ('&' :: 'g' :: 't' :: ';' :: r) = _
+  rw [unescape]
+theorem unescape_quot (r : List Char) : unescape ("&quot;".toList ++ r) = '"' :: unescape r := by
+  show unescape ('&' :: 'q' :: 'u' :: 'o' :: 't' :: ';' :: r) = _
+  rw [unescape]
+theorem unescape_apos (r : List Char) : unescape ("&#x27;".toList ++ r) = '\'' :: unescape r := by
+  show unescape ('&' :: '#' :: 'x' :: '2' :: '7' :: ';' :: r) = _
+  rw [unescape]
+
+theorem unescape_escape' (s : List Char) : unescape (escape s) = s := by
+  induction s with
+  | nil => simp [escape, unescape]
+  | cons c s ih =>
+    rw [escape_cons]
+    rcases escapeChar_cases c with h | h | h | h | h | h
+    · rw [h.2, unescape_amp, ih, h.1]
+    · rw [h.2, unescape_lt, ih, h.1]
+    · rw [h.2, unescape_gt, ih, h.1]
+    · rw [h.2, unescape_quot, ih, h.1]
+    · rw [h.2, unescape_apos, ih, h.1]
+    · rw [h.2.2.2.2.2]
+      show unescape (c :: escape s) = _
+      rw [unescape_cons_ne c _ h.1, ih]
+
+
+theorem escapeChar_no_raw (d c : Char) (h : c ∈ escapeChar d) :
+    c ≠ '<' ∧ c ≠ '>' ∧ c ≠ '"' ∧ c ≠ '\'' := by
+  rcases escapeChar_cases d with h' | h' | h' | h' | h' | h'
+  · rw [h'.2] at h; simp at h; rcases h with h | h | h | h | h <;> subst h <;> decide
+  · rw [h'.2] at h; simp at h; rcases h with h | h | h | h <;> subst h <;> decide
+  · rw [h'.2] at h; simp at h; rcases h with h | h | h | h <;> subst h <;> decide
+  · rw [h'.2] at h; simp at h; rcases h with h | h | h | h | h | h <;> subst h <;> decide
+  · rw [h'.2] at h; simp at h; rcases h with h | h | h | h | h | h <;> subst h <;> decide
+  · rw [h'.2.2.2.2.2] at h; simp at h; subst h
+    exact ⟨h'.2.1, h'.2.2.1, h'.2.2.2.1, h'.2.2.2.2.1⟩
+
+theorem escape_no_raw' (s : List Char) (c : Char) (h : c ∈ escape s) :
+    c ≠ '<' ∧ c ≠ '>' ∧ c ≠ '"' ∧ c ≠ '\'' := by
+  unfold escape at h
+  rw [List.mem_flatMap] at h
+  obtain ⟨d, _, hd⟩ := h
+  exact escapeChar_no_raw d c hd
+
+/-- the five possible continuations of an `&` -/
+def AmpTail (post : List Char) : Prop :=
+  (∃ r, post = "amp;".toList ++ r) ∨ (∃ r, post = "lt;".toList ++ r) ∨ (∃ r, post = "gt;".toList ++ r) ∨
+  (∃ r, post = "quot;".toList ++ r) ∨ (∃ r, post = "#x27;".toList ++ r)
+
+/-- an `&` inside a single escaped character is its first character, followed by the entity body -/
+theorem escapeChar_amp (c : Char) (pre post : List Char) (h : escapeChar c = pre ++ '&' :: post) :
+    pre = [] ∧ (post = "amp;".toList ∨ post = "lt;".toList ∨ post = "gt;".toList ∨
+      post = "quot;".toList ∨ post = "#x27;".toList) := by
+  rcases escapeChar_cases c with h' | h' | h' | h' | h' | h'
+  all_goals
+    first
+    | (rw [h'.2] at h
+       cases pre with
+       | nil => simp at h; simp [← h]
+       | cons p pre =>
+         exfalso
+         simp at h
+         have hm : '&' ∈ pre ++ '&' :: post := by simp
+         rw [← h.2] at hm
+         revert hm; decide)
+    | (rw [h'.2.2.2.2.2] at h
+       cases pre with
+       | nil => simp at h; exact absurd h.1 h'.1
+       | cons p pre => simp at h)
+
+theorem escape_amp' (s : List Char) (pre post : List Char) (h : escape s = pre ++ '&' :: post) :
+    AmpTail post := by
+  induction s generalizing pre with
+  | nil => simp [escape] at h
+  | cons c s ih =>
+    rw [escape_cons, List.append_eq_append_iff] at h
+    rcases h with ⟨a', _, h2⟩ | ⟨c', h1, h2⟩
+    · exact ih a' h2
+    · cases c' with
+      | nil => exact ih [] (by simpa using h2.symm)
+      | cons x c'' =>
+        simp at h2
+        obtain ⟨hx, hpost⟩ := h2
+        subst hx
+        obtain ⟨_, hc⟩ := escapeChar_amp c pre c'' h1
+        subst hpost
+        unfold AmpTail
+        rcases hc with hc | hc | hc | hc | hc <;> subst hc
+        · exact Or.inl ⟨_, rfl⟩
+        · exact Or.inr (Or.inl ⟨_, rfl⟩)
+        · exact Or.inr (Or.inr (Or.inl ⟨_, rfl⟩))
+        · exact Or.inr (Or.inr (Or.inr (Or.inl ⟨_, rfl⟩)))
+        · exact Or.inr (Or.inr (Or.inr (Or.inr ⟨_, rfl⟩)))
+
 end PM.Dom
